@@ -176,7 +176,7 @@ func TestVerif_C09_MQTTLimiter(t *testing.T) {
 	defer func() { c09RatelimiterNowFunc = old }()
 	r.Rule("RateLimit specs {requestRate only, bytesRate only, both} x requestRate 1-5 x bytesRate 1-200 x timePeriod {unset(=1s),1,2,3}; 60 steps per spec on the virtual clock (gaps 0, <period, exactly on / 1ns around period boundaries, k periods, thousands of periods); a step is one packet or (1 in 5) a burst of 2-8 goroutines calling Limiter.acquirePermission at a frozen instant; packet sizes {1, <=rate/2, rate-1, rate, rate+1, up to 3x rate}; the harness books admitted packets and bytes per aligned period; distinct = (mode, outcome class, gap kind, size class, single/burst)")
 	r.Assume("periods are aligned to the limiter's creation instant; an oversize packet's overshoot may be forgiven at the period end or charged to the following periods: a rejection is judged wrongful only when both readings leave spare packets and bytes")
-	n := r.N(3000, 90000)
+	n := r.N(3000, 60000)
 	var inflight, maxInflight atomic.Int64
 	for i := 0; i < n; i++ {
 		if !r.Mine(i) {
